@@ -29,6 +29,7 @@ type Guard struct {
 }
 
 type LoopSpec struct {
+	AtBack     []*Clause
 	Invariants []*Clause
 	Variant    *Clause
 }
@@ -371,9 +372,13 @@ func (cs *ContractSet) parseItem(file, pkgPath, header string, line int, clauses
 					return fmt.Errorf("%s:%d: %v", file, rc.line, err)
 				}
 				g := &Guard{Kind: fs[0], Name: strings.TrimSuffix(fs[1], ":"), C: &Clause{Kind: kw, Text: body, Expr: e, Line: rc.line, File: file}}
-				// optional site restriction: "guard call F in loop 3: e"
+				// optional site restriction: "guard call F in loop 3: e"; "guard return in loop 3: e"
 				if len(fs) >= 5 && fs[2] == "in" && fs[3] == "loop" {
 					fmt.Sscanf(strings.TrimSuffix(fs[4], ":"), "%d", &g.Loop)
+				}
+				if fs[0] == "return" && len(fs) >= 4 && fs[1] == "in" && fs[2] == "loop" {
+					fmt.Sscanf(strings.TrimSuffix(fs[3], ":"), "%d", &g.Loop)
+					g.Name = ""
 				}
 				c.Guards = append(c.Guards, g)
 			case "unfoldat":
@@ -421,6 +426,10 @@ func (cs *ContractSet) parseItem(file, pkgPath, header string, line int, clauses
 				case "invariant":
 					x.Label = fmt.Sprintf("loop%d.inv%d", n, len(ls.Invariants)+1)
 					ls.Invariants = append(ls.Invariants, x)
+				case "atback":
+					// asserted whenever the loop goes round again (not assumed at the head)
+					x.Label = fmt.Sprintf("loop%d.back%d", n, len(ls.AtBack)+1)
+					ls.AtBack = append(ls.AtBack, x)
 				case "variant":
 					ls.Variant = x
 				default:
@@ -437,6 +446,9 @@ func (cs *ContractSet) parseItem(file, pkgPath, header string, line int, clauses
 				}
 				if len(fs) >= 1 && fs[0] == "nooverflow" {
 					c.NoOvf = true
+				}
+				if len(fs) >= 1 && fs[0] == "assumeframe" {
+					cs.Assumed = append(cs.Assumed, fmt.Sprintf("frame (modifies clause) of %s.%s is assumed, not checked", pkgPath, c.Name))
 				}
 			case "replay":
 				c.Replay = body
